@@ -34,7 +34,7 @@ def body(c):
     if len(lat) < 300 or len(grp) < 20:
         raise MachineryError(f"too few cases {len(lat)} {len(grp)}")
     out = c.harness("h_qaff.py", {"lat": lat, "grp": grp})
-    traces = out["traces"]
+    traces = c.screen(out["traces"], "Trace_QAff", chunk=20, constants={"NoZeroHull": "FALSE", "Points": "{}", "GroupLen": 0, "GShapes": "{}"})
     res = c.validate("Trace_QAff", traces, chunk=20,
                      constants={"NoZeroHull": "FALSE", "Points": "{}", "GroupLen": 0, "GShapes": "{}"})
     c.judge(traces, res, describe=lambda tr: {k: tr[0].get(k) for k in ("bits", "fmt", "k", "shape", "axis", "gs")})
@@ -44,6 +44,7 @@ def body(c):
     c.extra["lattice_equal_to_as_built_prediction"] = sum(1 for t in traces if t[0].get("tlc_equal"))
     # wide domain
     wide = out["wide"] + c.harness("h_qnum.py", {"mode": "aff", "seed": c.seed, "reps": 1 if c.quick else 6, "max_gs": 2 if c.quick else 5})["traces"]
+    wide = c.screen(wide, "Trace_QNum", chunk=16, constants=devs)
     wres = c.validate("Trace_QNum", wide, chunk=16, constants=devs)
     c.judge(wide, wres, describe=lambda tr: {k: tr[0].get(k) for k in ("bits", "fmt", "shape", "axis", "gs", "tag")})
     rec = [t for t in c.record_repo_tests(["test/tensor/quantizers", "test/nn/test_qlinear.py"] if c.quick else ["test"], limit=250 if c.quick else 1500)
